@@ -8,14 +8,16 @@ from harness import core
 ID = "C13"
 RULE = ("random simple annotated networks with <= 10 vertices and 1-3 topologies (arbitrary name strings, "
         "2-clique-like, triangle-like and deliberately inconsistent annotations, forced self-paired classes, edges "
-        "of a topology that is not asked for, asked topologies without edges); get_ejks() is called 1-4 times on "
+        "of a topology that is not asked for, asked topologies without edges; one random case in seven has annotations "
+        "with MORE components than requested names); get_ejks() is called 1-4 times on "
         "one extractor and every returned object is re-read after the last call; exhaustive over all graphs on "
         "<= 4 vertices with one topology; non-trivial = at least two calls on a network with >= 2 edges of an asked "
         "topology; distinct by (names, annotations, edges, calls)")
 EXHAUSTIVE = {"quick": True, "thorough": True}
 EXPLANATION = ("general theorems (every annotated network, every number of calls) in Props/C13.v; correspondence on "
                "all one-topology graphs with <= 4 vertices plus seeded random networks; the verified checker "
-               "c13_check recounts the ordered edge ends and judges the implementation's matrices (tolerance 1e-9 "
+               "c13_check (tuple length taken from the annotations, >= number of requested names) recounts the ordered "
+               "edge ends and judges the implementation's matrices (tolerance 1e-9 "
                "for float rounding, exact equality between successive calls)")
 ASSUMPTIONS = ["networkx Graph.edges()/nodes()/degree() enumerate the simple graph that was built (order irrelevant: "
                "matrices are compared as key -> value maps)",
@@ -29,7 +31,15 @@ LEVEL_TEXT = (
     "symmetric, sums to 1 when E_t > 0, its row sums are the excess distribution of the topology, its keys are "
     "exactly the occurring ordered pairs; for every number of calls on one extractor (and every initial counter "
     "state) the n-th call returns the first call's matrices; the same law for the overall-degree variant. "
-    "c13_checkb is proved equivalent to the Prop-level specification and run on the implementation's outputs.")
+    "c13_checkb is proved equivalent to the Prop-level specification. The wire checker c13_check runs the "
+    "generalisation c13_checkb_gen, whose tuple length T is the common length of the ANNOTATIONS (T >= number of "
+    "requested names: the extractor may be asked for a prefix of the network's topologies): proved equivalent to "
+    "the specification C13_spec_T for that T (C13_checker_gen_iff, _iff_ex), equal to the old checker on the old "
+    "domain and accepting whatever it accepted (C13_checker_gen_old_domain, _extends); the model satisfies "
+    "C13_spec_T exactly and passes the checker for every T >= number of names, every counter state and number of "
+    "calls (C13_model_satisfies_spec_T, C13_model_passes_checker_gen) and does not raise there. The entry / "
+    "symmetry / sum / row-sum / key theorems were already stated for every T. It is run on the implementation's "
+    "outputs, incl. cases whose annotations have more components than names.")
 LEVEL_NOTE = ("Trusted: Coq kernel; extraction + OCaml driver + Python harness for the correspondence; float entries "
               "judged with tolerance 1e-9. Duplicate topology names in edge_names are outside the model "
               "(the generators use distinct names). No axioms.")
@@ -58,6 +68,11 @@ def corpus():
     cs.append(_mk(["t"], [[0], [0]], [], 2))
     # annotation shorter than the name list -> IndexError in the constructor
     cs.append(_mk(["a", "b"], [[1], [1]], [[0, 1, 0]], 1))
+    # annotations with MORE components than requested names (Props/C13.v ex_net3; seeded change C13-r4-3 truncates
+    # the excess tuples here): keys keep all 3 components
+    cs.append(_mk(["2-clique", "3-clique"],
+                  [[1, 1, 2], [1, 1, 0], [0, 1, 1], [1, 0, 0], [1, 0, 1]],
+                  [[0, 1, 1], [1, 2, 1], [0, 2, 1], [0, 3, 0], [1, 4, 0], [2, 4, 2]], 2))
     return cs
 
 
@@ -286,8 +301,11 @@ def compare(case, io, mo):
 
 # ------------------------------------------------------------------ verified checker on the implementation's output
 def _valid(case):
+    """domain of the verified checker c13_checkb_gen: all annotations have ONE length, at least the number of
+    requested names (more components than names is legal: the extractor is asked for a prefix of the topologies)"""
     T = len(case["names"])
-    return all(len(k) == T for k in case["jds"])
+    lens = {len(k) for k in case["jds"]}
+    return len(lens) <= 1 and all(n >= T for n in lens)
 
 
 def check_calls(case, io):
@@ -325,7 +343,7 @@ def shrink(case):
         yield dict(case, jds=case["jds"][:-1])
     nt = len(case["names"])
     if nt > 1 and not any(e[2] >= nt - 1 for e in es):
-        yield dict(case, names=case["names"][:-1], jds=[k[:nt - 1] for k in case["jds"]])
+        yield dict(case, names=case["names"][:-1], jds=[k[:nt - 1] + k[nt:] for k in case["jds"]])
 
 
 def describe(case, io):
